@@ -1060,6 +1060,47 @@ add('c06-benign-locals-renamed', 'C06', 'benign', [(RANGES, """def _shape(n1, n2
 add('c20-time-minutes-per-day', 'C20', 'break', [(DATE, """        v = hour / 24 + minute / 1440 + second / 86400""", """        v = hour / 24 + minute / 1400 + second / 86400""")], expect='C20.time')
 add('c20-n2time-hours-not-wrapped', 'C20', 'break', [(DATE, """    return hours % 24, mins, int(round(secs - 1.1E-6, 0))""", """    return hours, mins, int(round(secs - 1.1E-6, 0))""")], expect='C20.time')
 
+add('c06-union-swaps-when-right-bigger', 'C06', 'break', [(RANGES, """        values = self.values.copy()
+        values.update(other.values)
+        return Ranges(self.ranges + other.ranges, values)
+
+    def intersect""", """        x, y = self, other
+        if len(y.values) > len(x.values):
+            x, y = y, x
+        values = x.values.copy()
+        values.update(y.values)
+        return Ranges(x.ranges + y.ranges, values)
+
+    def intersect""")], expect='C06.ops')
+add('c06-benign-union-aliases', 'C06', 'benign', [(RANGES, """        values = self.values.copy()
+        values.update(other.values)
+        return Ranges(self.ranges + other.ranges, values)
+
+    def intersect""", """        x, y = self, other
+        values = x.values.copy()
+        values.update(y.values)
+        return Ranges(x.ranges + y.ranges, values)
+
+    def intersect""")])
+
+# ---------------------------------------------------------------- typed memo (C02/C19)
+add('c19-check-untyped-cache', 'C19', 'break', [(F, """    @functools.lru_cache(typed=True)
+    def check(value):""", """    @functools.lru_cache()
+    def check(value):""")], expect='C19.memo')
+add('c19-parse-condition-memoised', 'C19', 'break', [(F, """def _xfilter(accumulator, test_range, condition, operating_range):
+    from .operators import LOGIC_OPERATORS""", """@functools.lru_cache(maxsize=None)
+def _kind_of(condition):
+    return 2 if isinstance(condition, bool) else 0
+
+
+def _xfilter(accumulator, test_range, condition, operating_range):
+    from .operators import LOGIC_OPERATORS
+    _kind_of(condition)""")], expect='C19.memo')
+add('c02-logic-parser-memoised', 'C02', 'break', [(OPS, """def logic_input_parser(x, y):""", """@functools.lru_cache(None)
+def logic_input_parser(x, y):""")], expect='C02.memo')
+add('c02-benign-logic-parser-typed-memo', 'C02', 'benign', [(OPS, """def logic_input_parser(x, y):""", """@functools.lru_cache(None, typed=True)
+def logic_input_parser(x, y):""")])
+
 if __name__ == '__main__':
     here = os.path.dirname(os.path.abspath(__file__))
     ids = [v['id'] for v in V]
